@@ -34,10 +34,15 @@ import (
 type CrashCase struct {
 	Conc       *ConcCase `json:"conc,omitempty"` // two concurrent clients instead of one sequential workload
 	Seq        SeqCase   `json:"seq"`
-	Torn       string    `json:"torn"`                     // none | even | all : which file-write crash points also get a torn variant
-	Level2     int       `json:"level2"`                   // how many first-level crash points also get every second-level (recovery) crash point
-	OnlyLastOp bool      `json:\"only_last_op,omitempty\"` // very long workloads: crash points of the tail only
-	TailPoints int       `json:\"tail_points,omitempty\"`
+	Torn       string    `json:"torn"`                   // none | even | all : which file-write crash points also get a torn variant
+	Level2     int       `json:"level2"`                 // how many first-level crash points also get every second-level (recovery) crash point
+	OnlyLastOp bool      `json:"only_last_op,omitempty"` // very long workloads: crash points of the tail only
+	TailPoints int       `json:"tail_points,omitempty"`
+	// two-client mode: before the crash enumeration, this many schedules (seeds derived from the
+	// case's) are executed without a crash and the one in which most same-key writes of different
+	// clients overlapped in call/return time is kept: crash points are spent on an interleaving
+	// that has something to order
+	Screen int `json:"screen,omitempty"`
 }
 
 type propC04 struct{}
@@ -65,7 +70,7 @@ func (propC04) Runs(tier string) int {
 	if tier == "thorough" {
 		return 1500
 	}
-	return 32
+	return 64
 }
 
 func (propC04) Gen(r *simrt.Rand, idx int, tier string) any {
@@ -374,7 +379,7 @@ func CrashVerify(caseFile, dir, logPath string) int {
 	}
 	if c.Conc != nil {
 		c.Seq.World, c.Seq.Sched = c.Conc.World, c.Conc.Sched
-		for _, ops := range append([][]Op{c.Conc.Init}, c.Conc.Clients...) {
+		for _, ops := range append([][]Op{c.Conc.Init, c.Conc.Tail}, c.Conc.Clients...) {
 			for _, o := range ops {
 				if o.ID != 0 {
 					written[o.ID] = o
@@ -554,6 +559,26 @@ func copyDir(src, dst string) error {
 
 func (propC04) Exec(x any, _ []int32) RunOut {
 	c := x.(CrashCase)
+	screened := 0
+	if c.Conc != nil && c.Screen > 0 {
+		cc := *c.Conc
+		c.Conc = &cc
+		best, bestScore := cc.Sched.Seed, -1
+		for i := 0; i < c.Screen; i++ {
+			t := cc
+			t.Sched.Seed = cc.Sched.Seed + uint64(i)*0x9E3779B97F4A7C15
+			o, cr := concExec(t, nil)
+			if o.Infra != "" || o.Violation != nil || o.Inconclusive != "" || cr == nil {
+				continue // the crash-free run itself is judged below, on the schedule that is kept
+			}
+			screened++
+			if sc := sameKeyWriteOverlaps(cr); sc > bestScore {
+				best, bestScore = t.Sched.Seed, sc
+			}
+		}
+		cc.Sched.Seed = best
+		c.Screen = 0
+	}
 	base := filepath.Join(worldBase(), fmt.Sprintf("crash-%d", os.Getpid()))
 	os.RemoveAll(base)
 	os.MkdirAll(base, 0o755)
@@ -562,6 +587,9 @@ func (propC04) Exec(x any, _ []int32) RunOut {
 	b, _ := json.Marshal(c)
 	os.WriteFile(caseFile, b, 0o644)
 	out := RunOut{Probes: map[string]uint64{}, Faults: map[string]uint64{}}
+	if screened > 0 {
+		out.Probes["schedules-screened-before-crash-enumeration"] += uint64(screened)
+	}
 	h := fnv.New64a()
 	h.Write(b)
 	out.CaseHash = h.Sum64()
@@ -771,7 +799,28 @@ func genCrashConc(r *simrt.Rand, idx int, tier string) CrashCase {
 		}
 	}
 	tx := 0
-	for ci := 0; ci < 2; ci++ {
+	if idx%8 == 7 {
+		// both clients overwrite one key, read it back and go on writing: whatever order the two
+		// writes took for the readers is the order recovery has to reproduce
+		hot, other := c.Keys[0], c.Keys[1]
+		for ci := 0; ci < 2; ci++ {
+			var ops []Op
+			if r.Intn(2) == 0 {
+				ops = append(ops, Op{K: "yield", N: r.Intn(30)})
+			}
+			id++
+			ops = append(ops, Op{K: "set", Key: hot, ID: id, Size: 9 + r.Intn(300)}, Op{K: "get", Key: hot})
+			for k := 0; k < 1+r.Intn(2); k++ {
+				id++
+				ops = append(ops, Op{K: "set", Key: other, ID: id, Size: 9 + r.Intn(300)})
+			}
+			if r.Intn(2) == 0 {
+				ops = append(ops, Op{K: "get", Key: hot})
+			}
+			c.Clients = append(c.Clients, ops)
+		}
+	}
+	for ci := 0; ci < 2 && idx%8 != 7; ci++ {
 		var ops []Op
 		for len(ops) < 2+r.Intn(4) {
 			key := c.Keys[r.Intn(len(c.Keys))]
@@ -795,13 +844,42 @@ func genCrashConc(r *simrt.Rand, idx int, tier string) CrashCase {
 		}
 		c.Clients = append(c.Clients, ops)
 	}
+	// once both clients are done every key is read back at quiescence, and one more write follows,
+	// so that there are crash points after those reads: the order the concurrent writes took for
+	// the readers is on record before the process dies
+	c.Final = true
+	id++
+	c.Tail = []Op{{K: "set", Key: "zz-tail", ID: id, Size: 9 + r.Intn(100)}}
 	c.Sched = genSched(r, 500)
 	c.Sched.MaxSteps = 400_000
-	cc := CrashCase{Conc: &c, Torn: "even"}
+	cc := CrashCase{Conc: &c, Torn: "even", Screen: 24}
 	if tier == "thorough" {
 		cc.Torn = "all"
 	}
 	return cc
+}
+
+// sameKeyWriteOverlaps counts the pairs of acknowledged writes (autocommit set/delete, commit) of
+// different clients that overlapped in call/return time, same-key autocommit pairs counting double.
+func sameKeyWriteOverlaps(cr *concRun) int {
+	n := 0
+	for i, a := range cr.hist {
+		for _, b := range cr.hist[i+1:] {
+			if a.Client == b.Client || a.Client == 0 || b.Client == 0 || !(a.Call < b.Ret && b.Call < a.Ret) {
+				continue
+			}
+			aw := a.Op.K == "set" || a.Op.K == "del" || a.Op.K == "commit"
+			bw := b.Op.K == "set" || b.Op.K == "del" || b.Op.K == "commit"
+			if !aw || !bw {
+				continue
+			}
+			n++
+			if a.Op.Tx == 0 && b.Op.Tx == 0 && a.Op.Key == b.Op.Key {
+				n++
+			}
+		}
+	}
+	return n
 }
 
 type concLogLine struct {
@@ -818,7 +896,6 @@ type concLogLine struct {
 func crashChildConc(c CrashCase, dir string, log *crashLog, kill uint64, torn bool) int {
 	cc := *c.Conc
 	cc.Dir = dir
-	cc.Final = false
 	concKillAt, concKillTorn = kill, torn
 	concOpLog = func(kind string, client, n int, ev *HEvent) {
 		l := concLogLine{T: kind, C: client, N: n, Op: ev.Op}
